@@ -91,4 +91,4 @@ Definition is_nfs4_flags_w_cases : list (N * N) :=
 Definition acl_fix_text_len_nfs4_noname : bool := true.
 Definition acl_fix_wide_empty_tag : bool := true.
 Definition acl_fix_next_field_sentinel : bool := true.
-Definition acl_fix_ismode_reset : bool := false.
+Definition acl_fix_ismode_reset : bool := true.
